@@ -90,6 +90,8 @@ def derive(prev, wires, ang=None):
         n = len(prev["p"])
         opts.append(st.lists(ang, min_size=n, max_size=n).map(lambda ps: {**prev, "p": ps}))
         opts.append(st.just({**prev, "p": [-x for x in prev["p"]]}))
+        # angles that add up to a multiple of 2*pi with the previous gate (periodicity slips)
+        opts.append(st.sampled_from([2 * PI, -2 * PI, 4 * PI, PI]).map(lambda t: {**prev, "p": [round(t - x, 9) for x in prev["p"]]}))
     if prev.get("w") and len(prev["w"]) >= 2:
         opts.append(st.permutations(prev["w"]).map(lambda w: {**prev, "w": list(w)}))
     return st.one_of(*opts)
